@@ -344,3 +344,58 @@ def distribution(lines, impl_outs):
                     two_rows += 1
     return {"case_kinds": dict(kinds), "pdf_results": dict(res), "pdf_levels": dict(levels), "pdf_shapes": dict(shapes),
             "symbols_with_2_rows_below_iso_minimum_3": two_rows}
+
+
+# ---- kernel-side sample: the model evaluated by vm_compute inside Coq on cases the implementation ran ----
+KERNEL_HEADER = """From Verif Require Import Prelude Barcode Utf8M TabPdf417 Pdf417M Pdf417Spec.
+Inductive kcase :=
+| KSkip
+| KHl (data expected : list Z)
+| KEc (level : Z) (data expected : list Z)
+| KPix (level cols : Z) (data : list Z) (w h : Z) (rows : list Z).
+Fixpoint zl_eqb (a b : list Z) : bool :=
+  match a, b with
+  | [], [] => true
+  | x :: a', y :: b' => (x =? y) && zl_eqb a' b'
+  | _, _ => false
+  end.
+Definition case_ok (c : kcase) : bool :=
+  match c with
+  | KSkip => true
+  | KHl d e => match pdf_highlevel d with Ok r => zl_eqb r e | _ => false end
+  | KEc l d e => match pdf_compute l d with Ok r => zl_eqb r e | _ => false end
+  | KPix l c d w h rows =>
+    match pdf_encode d l c with
+    | Ok bc => (bc_width bc =? w) && (bc_height bc =? h) && zl_eqb (map pdfs_bits_value (bc_rows bc)) rows
+               && pdf_valid (bc_rows bc)
+               && match pdf_decode (bc_rows bc) with Some r => zl_eqb r d | None => false end
+    | _ => false
+    end
+  end.
+"""
+
+
+def _zl(xs):
+    return "[%s]" % "; ".join(str(x) for x in xs)
+
+
+def _hexbytes(h):
+    return [] if h == "-" else list(bytes.fromhex(h))
+
+
+def coq_case(line, impl_out):
+    t = line.split(" ")
+    try:
+        if t[0] == "pdfhl" and impl_out not in ("ERR", "PANIC") and len(line) < 400:
+            exp = [] if impl_out == "-" else [int(x) for x in impl_out.split(",")]
+            return "KHl %s %s" % (_zl(_hexbytes(t[1])), _zl(exp))
+        if t[0] == "pdfec" and impl_out != "PANIC" and int(t[1]) <= 5 and len(line) < 600:
+            return "KEc %s %s %s" % (t[1], _zl(t[2].split(",")), _zl(impl_out.split(",")))
+        if t[0] == "pdf" and impl_out.startswith("OK ") and len(impl_out) < 4000 and int(t[1]) <= 3:
+            f = impl_out.split(" ")
+            w, h = f[3].split("-")[1].split("x")
+            rows = [int(r, 2) for r in f[6].split("/")]
+            return "KPix %s %s %s %s %s %s" % (t[1], t[3], _zl(_hexbytes(t[2])), w, h, _zl(rows))
+    except Exception:
+        pass
+    return "KSkip"
